@@ -31,7 +31,12 @@ RULE = (
     "all families of <=3 inputs over 3 score values (see exhaustive_sweep); further dimensions: score class "
     "(plain / differences of 2^-40 / integers next to 2^24, 2^31, 2^53), -0.0, name and position of the score "
     "column, exact duplicate rows, constructor defaults, column selection `columns=` (with the score column in any "
-    "position, or without it)"
+    "position, or without it); second pass: scores that are +inf / -inf, text files with any suffix (equal or mixed, "
+    "known to from_path or not), merge_sort path lists mixing text and Parquet files, Parquet files written in "
+    "several row groups, DataFrame inputs with a non-default index, ids next to 2^62, the same merger object / path "
+    "list used twice (sequentially, interleaved, after an abandoned iteration) and one reader / path listed twice, "
+    "inputs longer than the default chunk constants (1000 / 20000, left to their defaults), 9..40 inputs, no input, "
+    "a further float column with missing cells, an empty column selection, mergers whose inputs are mergers"
 )
 
 MERGER_ENTRIES = ["read", "chunked", "rows-df", "rows-dicts", "rows-records", "merge_readers"]
@@ -52,11 +57,21 @@ def tmpdir() -> Path:
 # ----------------------------------------------------------------------------
 # the real code
 # ----------------------------------------------------------------------------
-def fmt_score(s: Fraction, floaty: bool, negzero: bool = False, wholetext: bool = False) -> str:
-    if not floaty or (wholetext and s.denominator == 1):
-        return str(int(s))
+INF = Fraction(10) ** 30   # stands for +inf in a case (and on the wire: the model only uses the order); -INF for -inf
+TEXT_SUFFIXES = [".csv", ".pin", ".tab", ".psms", ".peptides", ".tsv", ".txt", ""]   # the last three: unknown to from_path
+
+
+def to_float(s: Fraction, negzero: bool = False) -> float:
+    if abs(s) >= INF:
+        return float("inf") if s > 0 else float("-inf")
     f = float(s)
-    return repr(-0.0 if (negzero and f == 0.0) else f)
+    return -0.0 if (negzero and f == 0.0) else f
+
+
+def fmt_score(s: Fraction, floaty: bool, negzero: bool = False, wholetext: bool = False) -> str:
+    if not floaty or (wholetext and s.denominator == 1 and abs(s) < INF):
+        return str(int(s))
+    return repr(to_float(s, negzero))
 
 
 def score_col(case) -> str:
@@ -66,9 +81,24 @@ def score_col(case) -> str:
 def file_columns(case):
     """column order of every input: the score column first or last"""
     sc = score_col(case)
+    x = ["x"] if case.get("xcol") else []   # a further float column, with missing values (NaN)
     if case.get("nopay"):      # all-numeric table: no string column
-        return [sc, "id"] if case.get("spos", "first") == "first" else ["id", sc]
-    return [sc, "id", "p"] if case.get("spos", "first") == "first" else ["id", "p", sc]
+        return [sc, "id"] + x if case.get("spos", "first") == "first" else ["id"] + x + [sc]
+    return [sc, "id"] + x + ["p"] if case.get("spos", "first") == "first" else ["id"] + x + ["p", sc]
+
+
+def xval(rid: int):
+    """the cell of column `x` in the row with this id: missing (NaN) for every third id, else a dyadic number"""
+    return None if rid % 3 == 0 else Fraction(rid % 1000, 8) - 20
+
+
+def expected_pay(case, rid: int, with_p=True, with_x=True):
+    """canonical payload of the row `rid`: the string column, then (behind a bar) the x cell, where present"""
+    p = f"r{rid}" if (with_p and not case.get("nopay")) else None
+    if not (case.get("xcol") and with_x):
+        return p
+    v = xval(rid)
+    return (p or "") + "|" + ("nan" if v is None else str(v))
 
 
 def selected_columns(case):
@@ -78,25 +108,36 @@ def selected_columns(case):
     return [score_col(case) if c == "score" else c for c in case["cols"]]
 
 
+def input_fmt(case, i):
+    """storage format of input `i` (merge_sort path lists may mix text and Parquet files)"""
+    return case["fmts"][i] if case.get("fmts") else case["fmt"]
+
+
+def input_suffix(case, i):
+    if input_fmt(case, i) == "parquet":
+        return ".parquet"
+    return case["sfx"][i] if case.get("sfx") else ".csv"
+
+
 def write_input(i: int, rows, case):
     """materialise one input as a text file, a Parquet file or a DataFrame reader"""
     import pandas as pd
     from mokapot.tabular_data import CSVFileReader, DataFrameReader, ParquetFileReader
 
-    fmt, floaty, negzero = case["fmt"], case["floaty"], case.get("negzero", False)
+    fmt, floaty, negzero = input_fmt(case, i), case["floaty"], case.get("negzero", False)
     sc = score_col(case)
     order = file_columns(case)
-    scores = [float(s) if floaty else int(s) for s, _ in rows]
-    if floaty and negzero:
-        scores = [-0.0 if x == 0.0 else x for x in scores]
+    scores = [to_float(s, negzero) if floaty else int(s) for s, _ in rows]
     ids = [int(r) for _, r in rows]
     pay = [f"r{r}" for r in ids]
+    xs = [float("nan") if xval(r) is None else float(xval(r)) for r in ids]
     if fmt == "csv":
-        p = tmpdir() / f"in{i}.csv"
+        p = tmpdir() / f"in{i}{input_suffix(case, i)}"
         with open(p, "w") as f:
             f.write("\t".join(order) + "\n")
             for (s, r) in rows:
-                cell = {sc: fmt_score(s, floaty, negzero, case.get("wholetext", False)), "id": str(r), "p": f"r{r}"}
+                cell = {sc: fmt_score(s, floaty, negzero, case.get("wholetext", False)), "id": str(r), "p": f"r{r}",
+                        "x": "" if xval(r) is None else repr(float(xval(r)))}
                 f.write("\t".join(cell[c] for c in order) + "\n")
         return p, CSVFileReader
     if fmt == "parquet":
@@ -108,15 +149,29 @@ def write_input(i: int, rows, case):
             sc: pa.array(scores, type=pa.float64() if floaty else pa.int64()),
             "id": pa.array(ids, type=pa.int64()),
             "p": pa.array(pay, type=pa.string()),
+            "x": pa.array(xs, type=pa.float64()),     # (NaN values, not nulls)
         }
-        pq.write_table(pa.table({c: arrs[c] for c in order}), p)   # (`order` has no "p" for all-numeric tables)
+        # (`order` has no "p" for all-numeric tables); `rg`: written in row groups of that many rows, as mokapot's
+        # own chunk-wise writers do
+        pq.write_table(pa.table({c: arrs[c] for c in order}), p, row_group_size=case.get("rg"))
         return p, ParquetFileReader
     ser = {
         sc: pd.Series(scores, dtype="float64" if floaty else "int64"),
         "id": pd.Series(ids, dtype="int64"),
         "p": pd.Series(pay, dtype=object),
+        "x": pd.Series(xs, dtype="float64"),
     }
     df = pd.DataFrame({c: ser[c] for c in order})
+    how = case.get("dfindex", "range")   # the index of an input frame is no part of its rows
+    n = len(df)
+    if how == "shifted":
+        df.index = range(7, 7 + n)
+    elif how == "reversed":
+        df.index = range(n - 1, -1, -1)
+    elif how == "dup":
+        df.index = [0] * n
+    elif how == "str":
+        df.index = [f"x{(3 * j) % n}" for j in range(n)]
     return df, DataFrameReader
 
 
@@ -126,6 +181,8 @@ def canon(score, rid, pay):
         score = score.item()
     if hasattr(rid, "item"):
         rid = rid.item()
+    if isinstance(score, float) and score in (float("inf"), float("-inf")):
+        score = INF if score > 0 else -INF
     return (None if score is None else Fraction(score), None if rid is None else int(rid),
             None if pay is None else str(pay))
 
@@ -143,14 +200,19 @@ def tag(v) -> str:
     return type(v).__name__
 
 
-def run_impl(case):
-    """call the real function of `case`; returns dict(rows, err, exc, frames, names, names_mixed, stypes, itypes)"""
+def new_res():
+    return dict(rows=[], err=False, exc=None, frames=None, names=None, names_mixed=False, stypes=set(), itypes=set(),
+                xtypes=set())
+
+
+def entry_steps(case, obj, res):
+    """generator driving the entry point of `case` on `obj` (the merger object; the path list for merge_sort): one
+    item of the real iterator per step, recorded in `res` (so that two such drives can be interleaved)"""
     import mokapot.streaming as S
     import mokapot.utils as U
     from mokapot.tabular_data import TableType
 
-    out, frames = [], None
-    res = dict(rows=out, err=False, exc=None, frames=None, names=None, names_mixed=False, stypes=set(), itypes=set())
+    out = res["rows"]
     sc = score_col(case)
 
     def take(names, get):
@@ -162,6 +224,13 @@ def run_impl(case):
         s = get(sc) if sc in names else None
         rid = get("id") if "id" in names else None
         pay = get("p") if "p" in names else None
+        if "x" in names:
+            x = get("x")
+            res["xtypes"].add(tag(x))
+            if hasattr(x, "item"):
+                x = x.item()
+            pay = ("" if pay is None else str(pay)) + "|" + (
+                "nan" if (x is None or x != x) else (str(Fraction(x)) if isinstance(x, (int, float)) else repr(x)))
         if s is not None:
             res["stypes"].add(tag(s))
         if rid is not None:
@@ -174,61 +243,143 @@ def run_impl(case):
         for k in range(len(fr)):
             take(names, lambda c, k=k: data[c][k])
 
+    entry = case["entry"]
+    if case["kind"] == "sort":
+        for r in U.merge_sort(list(obj), sc):
+            take(r.keys(), r.__getitem__)
+            yield
+        return
+    sel = selected_columns(case)
+    kw = {} if sel is None else {"columns": sel}
+    if entry == "merge_readers":
+        readers, defaults, rcs = obj
+        it = (S.merge_readers(readers, sc) if defaults
+              else S.merge_readers(readers, sc, case["desc"], reader_chunk_size=rcs))
+        for fr in it:
+            assert len(fr) == 1, "merge_readers frame with != 1 row"
+            take_frame(fr)
+            yield
+        return
+    m = obj
+    if entry == "read":
+        take_frame(m.read(**kw))
+        yield
+    elif entry == "chunked":
+        frames = []
+        res["frames"] = frames
+        for fr in m.get_chunked_data_iterator(chunk_size=case["outer"], **kw):
+            if list(fr.index) != list(range(len(fr))):
+                raise AssertionError("frame index not reset")
+            n0 = len(out)
+            take_frame(fr)
+            frames.append(len(out) - n0)
+            yield
+    elif entry == "rows-df":
+        for r in m.get_row_iterator(row_type=TableType.DataFrame, **kw):
+            assert len(r) == 1, "row frame with != 1 row"
+            take_frame(r)
+            yield
+    elif entry == "rows-dicts":
+        for r in m.get_row_iterator(row_type=TableType.Dicts, **kw):
+            take(r.keys(), r.__getitem__)
+            yield
+    elif entry == "rows-records":
+        for r in m.get_row_iterator(row_type=TableType.Records, **kw):
+            take(r.dtype.names, r.__getitem__)
+            yield
+    else:
+        raise AssertionError(entry)
+
+
+def drive(case, runs):
+    """advance the step generators of `runs` = [(generator, res), …] in turn until all have ended; an exception
+    ends its own generator only and is recorded in its `res`"""
+    live = list(runs)
+    while live:
+        for g in list(live):
+            try:
+                next(g[0])
+            except StopIteration:
+                live.remove(g)
+            except ValueError as e:
+                if case["kind"] == "merger" and "should be" in str(e):
+                    g[1]["err"] = True
+                else:
+                    g[1]["exc"] = f"ValueError: {e}"[:300]
+                live.remove(g)
+            except Exception as e:  # noqa: BLE001
+                g[1]["exc"] = f"{type(e).__name__}: {e}"[:300]
+                live.remove(g)
+
+
+def run_impl(case):
+    """call the real function of `case`; returns dict(rows, err, exc, frames, names, names_mixed, stypes, itypes)
+    and, for the object re-use cases, under "second" the same for the second use of the same object / paths"""
+    import mokapot.streaming as S
+    import mokapot.utils as U
+
+    import warnings
+
+    warnings.simplefilter("ignore")   # `from_path` warns about text suffixes it does not know
+    res = new_res()
+    sc = score_col(case)
+    reuse = case.get("reuse")
+    old = U.MERGE_SORT_CHUNK_SIZE
     try:
         srcs = [write_input(i, rows, case) for i, rows in enumerate(case["inputs"])]
+        if case.get("samereader"):          # one and the same reader object / path listed twice
+            i, j = case["samereader"]
+            srcs[j] = srcs[i]
         if case["kind"] == "sort":
-            old = U.MERGE_SORT_CHUNK_SIZE
-            U.MERGE_SORT_CHUNK_SIZE = case["chunk"]
+            if not case.get("defchunk"):    # `defchunk`: the module constant (20000) is left as it is
+                U.MERGE_SORT_CHUNK_SIZE = case["chunk"]
+            obj = [p for p, _ in srcs]
+        else:
+            defaults = case.get("defaults", False)  # descending=True and reader_chunk_size=1000 left to the defaults
+            if case.get("samereader"):
+                i, j = case["samereader"]
+                readers = [cls(o) for o, cls in srcs]
+                readers[j] = readers[i]
+            else:
+                readers = [cls(o) for o, cls in srcs]
+            rcs = case["chunk"]
+            if case.get("nest"):
+                # the inputs of the merger are themselves mergers, over consecutive groups of the readers
+                inner, a = [], 0
+                for m in case["nest"]:
+                    inner.append(S.MergedTabularDataReader(readers[a:a + m], sc, case["desc"],
+                                                           reader_chunk_size=case["chunk"]))
+                    a += m
+                readers, rcs = inner, case["nestc"]
+            if case["entry"] == "merge_readers":
+                obj = (readers, defaults, rcs)
+            else:
+                obj = (S.MergedTabularDataReader(readers, sc) if defaults
+                       else S.MergedTabularDataReader(readers, sc, case["desc"], reader_chunk_size=rcs))
+        if reuse == "abandoned":
+            # an earlier, abandoned use of the same object: one item is taken from the entry point, then it is dropped
+            g0 = entry_steps(case, obj, new_res())
             try:
-                for r in U.merge_sort([p for p, _ in srcs], sc):
-                    take(r.keys(), r.__getitem__)
-            finally:
-                U.MERGE_SORT_CHUNK_SIZE = old
-            return res
-        readers = [cls(obj) for obj, cls in srcs]
-        entry = case["entry"]
-        defaults = case.get("defaults", False)  # descending=True and reader_chunk_size=1000 left to the defaults
-        sel = selected_columns(case)
-        kw = {} if sel is None else {"columns": sel}
-        if entry == "merge_readers":
-            it = (S.merge_readers(readers, sc) if defaults
-                  else S.merge_readers(readers, sc, case["desc"], reader_chunk_size=case["chunk"]))
-            for fr in it:
-                assert len(fr) == 1, "merge_readers frame with != 1 row"
-                take_frame(fr)
-            return res
-        m = (S.MergedTabularDataReader(readers, sc) if defaults
-             else S.MergedTabularDataReader(readers, sc, case["desc"], reader_chunk_size=case["chunk"]))
-        if entry == "read":
-            take_frame(m.read(**kw))
-        elif entry == "chunked":
-            frames = []
-            res["frames"] = frames
-            for fr in m.get_chunked_data_iterator(chunk_size=case["outer"], **kw):
-                if list(fr.index) != list(range(len(fr))):
-                    raise AssertionError("frame index not reset")
-                n0 = len(out)
-                take_frame(fr)
-                frames.append(len(out) - n0)
-        elif entry == "rows-df":
-            for r in m.get_row_iterator(row_type=TableType.DataFrame, **kw):
-                assert len(r) == 1, "row frame with != 1 row"
-                take_frame(r)
-        elif entry == "rows-dicts":
-            for r in m.get_row_iterator(row_type=TableType.Dicts, **kw):
-                take(r.keys(), r.__getitem__)
-        elif entry == "rows-records":
-            for r in m.get_row_iterator(row_type=TableType.Records, **kw):
-                take(r.dtype.names, r.__getitem__)
+                next(g0)
+            except Exception:  # noqa: BLE001
+                pass
+            del g0
+        if reuse in ("twice", "interleaved"):
+            res2 = new_res()
+            res["second"] = res2
+            if reuse == "twice":
+                drive(case, [(entry_steps(case, obj, res), res)])
+                drive(case, [(entry_steps(case, obj, res2), res2)])
+            else:
+                drive(case, [(entry_steps(case, obj, res), res), (entry_steps(case, obj, res2), res2)])
         else:
-            raise AssertionError(entry)
+            drive(case, [(entry_steps(case, obj, res), res)])
     except ValueError as e:
-        if case["kind"] == "merger" and "should be" in str(e):
-            res["err"] = True
-        else:
-            res["exc"] = f"ValueError: {e}"[:300]
+        res["exc"] = f"ValueError: {e}"[:300]
     except Exception as e:  # noqa: BLE001
         res["exc"] = f"{type(e).__name__}: {e}"[:300]
+    finally:
+        U.MERGE_SORT_CHUNK_SIZE = old
     return res
 
 
@@ -240,14 +391,14 @@ def is_sorted(rows, desc):
     return all((a >= b) if desc else (a <= b) for a, b in zip(s, s[1:]))
 
 
-def with_ids(score_lists):
-    """row id = 1000 * input index + position: unique, and it names the row's origin"""
-    return [[(Fraction(s), 1000 * i + j) for j, s in enumerate(sc)] for i, sc in enumerate(score_lists)]
+def with_ids(score_lists, base=0):
+    """row id = base + 1000 * input index + position: unique, and it names the row's origin"""
+    return [[(Fraction(s), base + 1000 * i + j) for j, s in enumerate(sc)] for i, sc in enumerate(score_lists)]
 
 
 COLS_WITH_SCORE = [["score", "id", "p"], ["id", "score"], ["score", "id"], ["score"], ["p", "score"],
                    ["p", "id", "score"], ["id", "p", "score"]]
-COLS_WITHOUT_SCORE = [["id"], ["id", "p"], ["p"]]
+COLS_WITHOUT_SCORE = [["id"], ["id", "p"], ["p"], []]
 COLS_ENTRIES = ["read", "chunked", "rows-df", "rows-dicts", "rows-records"]
 
 
@@ -288,7 +439,16 @@ def gen_case(rng, nmax=20, force_cols=False):
     if floaty and fmt == "csv":
         sclass = "plain"
     vals = gen_vals(rng, floaty, pool, sclass)
+    # scores that are +inf / -inf (float columns only): they sort first / last and tie among themselves
+    inf = floaty and sclass == "plain" and rng.random() < 0.15
+    if inf:
+        vals = vals + [INF] * rng.choice([0, 1, 1, 2]) + [-INF] * rng.choice([0, 1, 1, 2, max(1, pool)])
     lists = [sorted((rng.choice(vals) for _ in range(m)), reverse=desc) for m in lens]
+    if inf and rng.random() < 0.5:
+        # make sure the boundary is met: an input that ends in (descending) / starts with (ascending) -inf rows
+        i = rng.randrange(k)
+        lists[i] = sorted(lists[i][: max(0, len(lists[i]) - 2)] + [-INF] * rng.choice([1, 2]), reverse=desc)
+    inf = inf and any(abs(x) >= INF for li in lists for x in li)
     shape = "sorted"
     if rng.random() < 0.3:
         # perturb one or two inputs so that they are not sorted as declared
@@ -296,7 +456,8 @@ def gen_case(rng, nmax=20, force_cols=False):
         for _ in range(rng.choice([1, 1, 2])):
             i = rng.randrange(k)
             li = lists[i]
-            how = rng.choice(["swap", "shuffle", "tail-best", "reverse"])
+            how = rng.choice(["swap", "shuffle", "reverse"] if any(abs(v) >= INF for v in vals)
+                             else ["swap", "shuffle", "tail-best", "reverse"])
             if len(li) >= 2:
                 if how == "swap":
                     j = rng.randrange(len(li) - 1)
@@ -308,7 +469,7 @@ def gen_case(rng, nmax=20, force_cols=False):
                 else:
                     li.append(max(vals) + 1 if desc else min(vals) - 1)
     wholetext = False
-    if shape == "sorted" and fmt == "csv" and floaty and rng.random() < 0.5:
+    if shape == "sorted" and fmt == "csv" and floaty and not inf and rng.random() < 0.5:
         # text files in which whole numbers carry no decimal point ("5", then "4.25"): a reader chunk holding only
         # such values is parsed as integers, later chunks as floats — the merge must compare them as numbers.
         # The two best values of every input are made whole: the merger asserts equal column types, which the
@@ -321,7 +482,9 @@ def gen_case(rng, nmax=20, force_cols=False):
             for j in range(min(len(li), 2)):
                 li[j] = Fraction(math.ceil(li[j]) if desc else math.floor(li[j]))
             li.sort(reverse=desc)
-    inputs = with_ids(lists)
+    # ids next to 2^62: not representable as float64 (a detour of the rows through a float array changes them)
+    idbase = (2 ** 62 + 2 * rng.randrange(2 ** 20) + 1) if rng.random() < 0.15 else 0
+    inputs = with_ids(lists, idbase)
     # exact duplicate rows (same score, id, payload): twice in one input, or in two inputs
     dups = 0
     if rng.random() < 0.12:
@@ -339,6 +502,18 @@ def gen_case(rng, nmax=20, force_cols=False):
                     pos += 1
                 tgt.insert(pos, row)
             dups += 1
+    # object re-use: the same merger object / the same paths used twice (one after the other, or two iterations
+    # interleaved), used after an abandoned first iteration, or one reader object / path listed twice
+    reuse, samereader = None, None
+    if rng.random() < 0.14:
+        reuse = rng.choice(["twice", "interleaved", "abandoned", "same-reader"])
+        if reuse == "same-reader":
+            if k >= 2:
+                i, j = sorted(rng.sample(range(k), 2))
+                inputs[j] = list(inputs[i])
+                samereader = [i, j]
+            else:
+                reuse = "twice"
     if wholetext:
         # (duplicate rows inserted above may have moved a fractional value into the first two rows of an input: the
         # merger asserts equal column types, inferred from those rows — keep the option only when they agree)
@@ -358,10 +533,53 @@ def gen_case(rng, nmax=20, force_cols=False):
     cols = None
     if kind == "merger" and entry != "merge_readers" and (force_cols or rng.random() < 0.1):
         cols = list(rng.choice(COLS_WITHOUT_SCORE if rng.random() < 0.12 else COLS_WITH_SCORE))
+    # stacked mergers: consecutive groups of the inputs are merged first, the merged streams afterwards
+    nest, nestc = None, None
+    if kind == "merger" and cols is None and rng.random() < 0.12:
+        cuts = sorted(rng.sample(range(1, k), rng.randint(0, min(k - 1, 3)))) if k > 1 else []
+        bounds = [0] + cuts + [k]
+        nest = [b - a for a, b in zip(bounds, bounds[1:])]
+        nestc = rng.choice([1, 2, 3, total, rng.randint(1, total + 1)])
+        if defaults:
+            defaults, chunk = False, rng.choice([1, 2, n_eff + 1])
     nopay = cols is None and rng.random() < 0.15
-    return dict(kind=kind, inputs=inputs, desc=desc, chunk=chunk, fmt=fmt, entry=entry, outer=outer, nopay=nopay,
+    xcol = cols is None and rng.random() < 0.15     # a further float column in which every third cell is missing
+    case = dict(kind=kind, inputs=inputs, desc=desc, chunk=chunk, fmt=fmt, entry=entry, outer=outer, nopay=nopay,
                 floaty=floaty, shape=shape, sclass=sclass, scol=scol, spos=spos, negzero=negzero,
-                defaults=defaults, cols=cols, dups=dups, wholetext=wholetext)
+                defaults=defaults, cols=cols, dups=dups, wholetext=wholetext, inf=inf, idbase=idbase,
+                reuse=reuse, samereader=samereader, xcol=xcol, nest=nest, nestc=nestc)
+    # --- storage forms -------------------------------------------------------------------------------------
+    # text files: the suffix (merge_sort looks at the suffix of the first path only; from_path knows a list of text
+    # suffixes and reads every other one as text after a warning) — equal for all inputs, or mixed
+    r = rng.random()
+    if r < 0.4:
+        sfx = [".csv"] * k
+    elif r < 0.75:
+        sfx = [rng.choice(TEXT_SUFFIXES)] * k
+    else:
+        sfx = [rng.choice(TEXT_SUFFIXES) for _ in range(k)]
+    case["sfx"] = sfx
+    # merge_sort on a path list that mixes text and Parquet files: read correctly when the first path is text,
+    # refused (pyarrow error) when the first path is Parquet
+    if kind == "sort" and k >= 2 and not wholetext and cols is None and rng.random() < 0.1:
+        first = rng.choice(["csv", "csv", "parquet"])
+        other = "parquet" if first == "csv" else "csv"
+        fmts = [first] + [rng.choice(["csv", "parquet"]) for _ in range(k - 1)]
+        if other not in fmts[1:]:
+            fmts[rng.randrange(1, k)] = other
+        if samereader:
+            fmts[samereader[1]] = fmts[samereader[0]]
+        if floaty and "csv" in fmts and sclass != "plain":
+            fmts = None   # (precision-critical float classes are not written as text, see above)
+        case["fmts"] = fmts
+        if fmts is not None and fmts[0] == "parquet" and "csv" in fmts:
+            case["shape"] = "mixed-parquet-first"
+    # Parquet files written in several row groups
+    uses_pq = fmt == "parquet" or "parquet" in (case.get("fmts") or [])
+    case["rg"] = rng.choice([1, 2, 3, rng.randint(1, n_eff)]) if (uses_pq and rng.random() < 0.5) else None
+    # DataFrame inputs whose index is not 0..n-1
+    case["dfindex"] = rng.choice(["range", "range", "range", "shifted", "reversed", "dup", "str"]) if fmt == "df" else "range"
+    return case
 
 
 def gen_empty(rng):
@@ -370,7 +588,69 @@ def gen_empty(rng):
     c["shape"] = "empty-input"
     lists = [[s for s, _ in rows] for rows in c["inputs"]]
     lists[rng.randrange(len(lists))] = []
-    c["inputs"] = with_ids(lists)
+    c["inputs"] = with_ids(lists, c.get("idbase", 0))
+    c.update(samereader=None, reuse=None, fmts=None, nest=None)
+    return c
+
+
+def gen_noinput(rng, kind):
+    """boundary: no input at all (outside the property's quantifier; the code raises)"""
+    c = gen_case(rng, 3)
+    c.update(kind=kind, inputs=[], shape="no-input", samereader=None, reuse=None, fmts=None, cols=None, sfx=[], nest=None,
+             desc=True if kind == "sort" else c["desc"], fmt="csv" if kind == "sort" else c["fmt"],
+             entry="merge_sort" if kind == "sort" else rng.choice(MERGER_ENTRIES), dups=0, wholetext=False)
+    return c
+
+
+BIG_KINDS = ["merger-default-chunk", "many-inputs", "sort-default-chunk"]
+
+
+def gen_big(rng, which, fmt=None):
+    """size: an input longer than the *default* chunk constant (reader_chunk_size = 1000 of the table merger,
+    MERGE_SORT_CHUNK_SIZE = 20000 of merge_sort, both left to their defaults), or many more inputs than usual"""
+    floaty = rng.random() < 0.5
+    vals = [Fraction(rng.randint(-200, 200), 4 if floaty else 1) for _ in range(rng.choice([3, 40, 400]))]
+    c = dict(nopay=rng.random() < 0.2, floaty=floaty, sclass="plain", scol="score", spos="first", negzero=False,
+             defaults=False, cols=None, dups=0, wholetext=False, inf=False, idbase=0, reuse=None, samereader=None,
+             rg=None, dfindex="range", shape="sorted", big=which)
+    if which == "many-inputs":
+        k = rng.randint(9, 40)
+        lens = [rng.randint(1, 3) for _ in range(k)]
+        kind = rng.choice(["sort", "merger"])
+        desc = True if kind == "sort" else rng.random() < 0.5
+        chunk = rng.choice([1, 2, 4])
+        c.update(kind=kind, desc=desc, chunk=chunk, fmt=rng.choice(["csv", "parquet"] if kind == "sort" else ["df", "csv", "parquet"]),
+                 entry="merge_sort" if kind == "sort" else rng.choice(MERGER_ENTRIES))
+    elif which == "merger-default-chunk":
+        k = rng.choice([2, 3])
+        lens = [rng.randint(1001, 1250)] + [rng.randint(1, 300) for _ in range(k - 1)]
+        rng.shuffle(lens)
+        desc = True
+        c.update(kind="merger", desc=True, chunk=1000, defaults=True, fmt=rng.choice(["df", "csv", "parquet"]),
+                 entry=rng.choice(MERGER_ENTRIES))
+    else:
+        k = 2
+        lens = [rng.randint(20001, 20040), rng.randint(1, 60)]
+        rng.shuffle(lens)
+        desc = True
+        c.update(kind="sort", desc=True, chunk=20000, defchunk=True, fmt=rng.choice(["csv", "parquet"]),
+                 entry="merge_sort", huge=True)
+    lists = [sorted((rng.choice(vals) for _ in range(m)), reverse=desc) for m in lens]
+    if which == "merger-default-chunk" and rng.random() < 0.4:
+        # the only out-of-order step of the long input lies exactly on the border between two default-size chunks
+        li = max(lists, key=len)
+        li[1000] = li[999] + 1
+        c["shape"] = "perturbed"
+    if fmt is not None:
+        c["fmt"] = fmt
+    if c["fmt"] == "parquet" and rng.random() < 0.5:
+        c["rg"] = rng.choice([64, 300, 999])
+    c["inputs"] = with_ids([[s for s in li] for li in lists])
+    # (ids: 1000 * input + position would collide for long inputs)
+    c["inputs"] = [[(s, 100000 * i + j) for j, (s, _) in enumerate(rows)] for i, rows in enumerate(c["inputs"])]
+    total = sum(lens)
+    c["outer"] = rng.choice([1, 7, 500, total, total + 1])
+    c["sfx"] = [rng.choice(TEXT_SUFFIXES)] * k
     return c
 
 
@@ -440,10 +720,14 @@ def from_json(d):
 
 def pattern_key(case):
     vals = sorted({s for rows in case["inputs"] for s, _ in rows})
-    rk = tuple(tuple(vals.index(s) for s, _ in rows) for rows in case["inputs"])
+    rank = {s: i for i, s in enumerate(vals)}
+    rk = tuple(tuple(rank[s] for s, _ in rows) for rows in case["inputs"])
     cols = case.get("cols")
+    fm = case.get("fmts")
     return (case["entry"], case["fmt"], case["desc"], case["chunk"], rk, None if cols is None else tuple(cols),
-            case.get("defaults", False), case.get("spos", "first"), case.get("sclass", "plain"))
+            case.get("defaults", False), case.get("spos", "first"), case.get("sclass", "plain"),
+            None if fm is None else tuple(fm), case.get("reuse"), case.get("rg"),
+            None if not case.get("nest") else (tuple(case["nest"]), case["nestc"]))
 
 
 def nontrivial(case):
@@ -463,7 +747,16 @@ def impl_results(cases):
         import multiprocessing as mp
 
         _POOL = ProcessPoolExecutor(max_workers=min(12, os.cpu_count() or 1), mp_context=mp.get_context("spawn"))
-    return list(_POOL.map(run_impl, cases, chunksize=64))
+    # the long cases one by one (and first), so that they are spread over the workers; the others in batches
+    big = [i for i, c in enumerate(cases) if c.get("big")]
+    futs = [(i, _POOL.submit(run_impl, cases[i])) for i in big]
+    rest = [i for i, c in enumerate(cases) if not c.get("big")]
+    out = [None] * len(cases)
+    for i, r in zip(rest, _POOL.map(run_impl, [cases[i] for i in rest], chunksize=64)):
+        out[i] = r
+    for i, f in futs:
+        out[i] = f.result()
+    return out
 
 
 def wire_cols(case):
@@ -472,6 +765,19 @@ def wire_cols(case):
 
 
 DELIVER_ENTRIES = ("chunked", "merge_readers", "read")
+
+
+def path_suffixes(case):
+    """the suffixes of the paths actually handed to merge_sort"""
+    src = list(range(len(case["inputs"])))
+    if case.get("samereader"):
+        i, j = case["samereader"]
+        src[j] = i
+    return [input_suffix(case, i) for i in src]
+
+
+def all_parquet(case):
+    return case["fmt"] == "parquet" and not case.get("fmts")
 
 
 def eval_cases(chk, cases, tally=True):
@@ -493,23 +799,111 @@ def eval_cases(chk, cases, tally=True):
                 ask(ix, "rechunk", req("mergerechunk", c["outer"], [[0, k] for k in range(len(r["rows"]))]))
             continue
         out = wire_rows(r["rows"])
+        huge = bool(c.get("huge"))   # (the Lean spec checkers are quadratic: restated in Python for these)
         if c["kind"] == "sort":
-            ask(ix, "model", req("mergefiles", c["chunk"], ins))
-            ask(ix, "spec", req("spec-C14-merge", ins, out))
+            if all_parquet(c) and c.get("rg"):
+                ask(ix, "model", req("mergegroups", c["rg"], c["chunk"], ins))
+            elif "sfx" in c or c.get("fmts"):
+                ask(ix, "model", req("mergepaths", c["chunk"], path_suffixes(c), ins))
+            else:
+                ask(ix, "model", req("mergefiles", c["chunk"], ins))
+            if not huge:
+                ask(ix, "spec", req("spec-C14-merge", ins, out))
         else:
-            ask(ix, "model", req("mergechecked", c["desc"], c["chunk"], ins))
+            if c.get("nest"):
+                groups, a = [], 0
+                for m in c["nest"]:
+                    groups.append(ins[a:a + m])
+                    a += m
+                ask(ix, "model", req("mergenested", c["desc"], c["chunk"], c["nestc"], groups))
+            elif all_parquet(c) and c.get("rg"):
+                ask(ix, "model", req("mergecheckedgroups", c["desc"], c["rg"], c["chunk"], ins))
+            else:
+                ask(ix, "model", req("mergechecked", c["desc"], c["chunk"], ins))
             ask(ix, "spec", req("spec-C14-checked", c["desc"], ins, out, bool(r["err"])))
             if c["entry"] == "chunked":
                 ask(ix, "rechunk", req("mergerechunk", c["outer"], out))
-            if c["entry"] == "read":
+            if c.get("nest"):
+                pass    # (what the entry points hand on is derived below from the model's rows, as for `columns=`)
+            elif c["entry"] == "read":
                 ask(ix, "deliver", req("mergeread", c["desc"], c["chunk"], ins))
             elif c["entry"] in DELIVER_ENTRIES:
                 ask(ix, "deliver", req("mergeframes", c["desc"], c["chunk"],
                                        c["outer"] if c["entry"] == "chunked" else 1, ins))
-        ask(ix, "stable", req("stablesort", c["desc"], ins))
+        if not huge:
+            ask(ix, "stable", req("stablesort", c["desc"], ins))
     resp = common.driver_batch(lines)
     for c, r, ix in zip(cases, results, idx):
+        n_sv, n_cb = len(chk.spec_violations), len(chk.corr_breaks)
         classify(chk, c, r, resp, ix, tally)
+        if r.get("second") is not None and (n_sv, n_cb) == (len(chk.spec_violations), len(chk.corr_breaks)):
+            check_second(chk, c, r)
+
+
+def expected_triple(c, s, rid):
+    """the canonical (score, id, payload) triple under which an input row must come out in case `c`"""
+    cols = c.get("cols")
+    if cols is None:
+        return (s, rid, expected_pay(c, rid))
+    return (s if "score" in cols else None, rid if "id" in cols else None,
+            expected_pay(c, rid, with_p="p" in cols, with_x=False))
+
+
+def py_spec(c, rows, err):
+    """the property restated directly on canonical row triples (for the second use of a re-used object and for the
+    very long inputs; cross-checked against the Lean spec op on all other cases)"""
+    from collections import Counter
+
+    pool = Counter(expected_triple(c, s, rid) for x in c["inputs"] for s, rid in x)
+    got = Counter(rows)
+    desc = c["desc"]
+    unsorted_in = not all(is_sorted(x, desc) for x in c["inputs"])
+    sc = [t[0] for t in rows]
+    ordered = all((a >= b) if desc else (a <= b) for a, b in zip(sc, sc[1:]))
+    if c["kind"] == "sort":
+        if got != pool:
+            return "fail-perm"
+        return "ok" if (unsorted_in or ordered) else "fail-sorted"
+    if bool(err) != unsorted_in:
+        return "fail-error-iff-unsorted"
+    if not ordered:
+        return "fail-sorted"
+    if not err and got != pool:
+        return "fail-perm"
+    if err and (got - pool):
+        return "fail-subperm"
+    return "ok"
+
+
+def check_second(chk, c, r):
+    """object re-use: the second use of the same merger object / path list (after, or interleaved with, the first —
+    which has just been checked in full) must deliver exactly what the first one delivered"""
+    s2 = r["second"]
+    keys = ("rows", "err", "exc", "frames", "names", "names_mixed", "stypes", "itypes", "xtypes")
+    if all(s2[k] == r[k] for k in keys):
+        return
+    info = dict(case=jsonable(c), impl=[[None if s is None else str(s), i] for s, i, _ in r["rows"]],
+                impl_raised=r["err"], impl_exception=r["exc"],
+                second=[[None if s is None else str(s), i] for s, i, _ in s2["rows"]], second_raised=s2["err"],
+                second_exception=s2["exc"], reuse=c.get("reuse"))
+    entry = c["entry"]
+    if s2["exc"] is not None:
+        chk.spec_violation(f"reuse:{entry}:exception:{s2['exc'].split(':')[0]}",
+                           dict(info, clause="the second use of the same object raised where the first did not"))
+        return
+    cols = c.get("cols")
+    if cols is None or "score" in cols:
+        clause = py_spec(c, s2["rows"], s2["err"])
+        if clause != "ok":
+            chk.spec_violation(f"reuse:{entry}:{clause}",
+                               dict(info, clause=f"{clause} on the second use of the same object ({c.get('reuse')})"))
+            return
+    if s2["names"] != r["names"] or s2["stypes"] != r["stypes"] or s2["itypes"] != r["itypes"]:
+        chk.spec_violation(f"reuse:{entry}:row-modified",
+                           dict(info, clause="column names / cell kinds differ on the second use of the same object"))
+        return
+    chk.corr_break("reuse", dict(info, note="the second use of the same object satisfies the spec but does not deliver "
+                                            "what the first use delivered (the model is a function of the inputs)"))
 
 
 def stable_oracle(c):
@@ -522,11 +916,14 @@ def stable_oracle(c):
 def check_tie_rule(chk, c, info, impl_rows, stable_line):
     """inputs sorted as declared and no error: the rows must come out in exactly the stable order"""
     oracle = stable_oracle(c)
-    v = dec(stable_line)
-    spec_rows = parse_rows(v) if v != [] else []
-    if spec_rows != oracle:
-        chk.corr_break("stablesort-spec", dict(info, model=stable_line.strip(), oracle=[[str(a), b] for a, b in oracle]))
-        return False
+    if stable_line is None:     # very long inputs: the (quadratic) Lean spec function is not evaluated
+        stable_line = "<not evaluated>"
+    else:
+        v = dec(stable_line)
+        spec_rows = parse_rows(v) if v != [] else []
+        if spec_rows != oracle:
+            chk.corr_break("stablesort-spec", dict(info, model=stable_line.strip(), oracle=[[str(a), b] for a, b in oracle]))
+            return False
     if impl_rows != oracle:
         chk.corr_break("tie-order", dict(info, model=stable_line.strip(),
                                          note="order and content satisfy the spec, but rows of equal score do not "
@@ -564,7 +961,7 @@ def classify_cols(chk, c, r, resp, ix, info):
         return
 
     def proj(s, rid):
-        return (s if "score" in cols else None, rid if "id" in cols else None, f"r{rid}" if "p" in cols else None)
+        return expected_triple(c, s, rid)
 
     pool = Counter(proj(s, rid) for rows in c["inputs"] for s, rid in rows)
     got = Counter(r["rows"])
@@ -635,11 +1032,11 @@ def check_delivery(chk, c, r, info, impl_rows, line):
 def classify(chk, c, r, resp, ix, tally=True):
     model = resp[ix["model"]].strip()
     with_cols = c.get("cols") is not None
-    spec = "" if with_cols else resp[ix["spec"]].strip()
+    spec = "" if with_cols else (resp[ix["spec"]].strip() if "spec" in ix else py_spec(c, r["rows"], r["err"]))
     info = dict(case=jsonable(c), impl=[[None if s is None else str(s), i] for s, i, _ in r["rows"]],
                 impl_raised=r["err"], impl_exception=r["exc"])
     entry = c["entry"]
-    has_empty = any(len(x) == 0 for x in c["inputs"])
+    has_empty = any(len(x) == 0 for x in c["inputs"]) or len(c["inputs"]) == 0
     if tally:
         chk.case(None, pattern_key(c) if nontrivial(c) else None,
                  sample=dict(entry=entry, fmt=c["fmt"], desc=c["desc"], chunk=c["chunk"],
@@ -659,6 +1056,7 @@ def classify(chk, c, r, resp, ix, tally=True):
         chk.count("score_class", c.get("sclass", "plain"))
         chk.count("text_whole_numbers_without_point", bool(c.get("wholetext")))
         chk.count("all_numeric_table", bool(c.get("nopay")))
+        chk.count("float_column_with_missing_cells", bool(c.get("xcol")))
         chk.count("score_column", f"{score_col(c)}/{c.get('spos', 'first')}")
         chk.count("neg_zero", bool(c.get("negzero")) and any(s == 0 for s in scores))
         chk.count("duplicate_rows", min(c.get("dups", 0), 2))
@@ -666,10 +1064,28 @@ def classify(chk, c, r, resp, ix, tally=True):
         cols = c.get("cols")
         chk.count("columns", "none" if cols is None else ("without-score" if "score" not in cols else
                                                           f"score@{cols.index('score')}/{len(cols)}"))
+        # second pass
+        chk.count("inf_scores", "+".join(t for t, v in (("+inf", INF), ("-inf", -INF)) if v in scores) or "none")
+        if c["fmt"] == "csv" and c.get("sfx"):
+            sf = set(c["sfx"])
+            chk.count("text_suffix", "mixed" if len(sf) > 1 else (next(iter(sf)) or "<none>"))
+        fm = c.get("fmts")
+        chk.count("path_list", "one format" if (not fm or len(set(fm)) == 1) else (
+            "text first, then Parquet" if fm[0] == "csv" else "Parquet first, then text (refused)"))
+        if c["fmt"] == "parquet" or (fm and "parquet" in fm):
+            chk.count("parquet_row_groups", "one" if not c.get("rg") else
+                      ("several" if c["rg"] < n else "one"))
+        if c["fmt"] == "df":
+            chk.count("frame_index", c.get("dfindex", "range"))
+        chk.count("object_reuse", c.get("reuse") or "none")
+        chk.count("stacked_mergers", "no" if not c.get("nest") else f"{min(len(c['nest']), 3)} inner")
+        chk.count("ids", "next to 2^62" if c.get("idbase") else "small")
+        chk.count("size", c.get("big") or "ordinary")
+        chk.count("merge_sort_chunk_constant", "module default" if c.get("defchunk") else "set")
     # --- boundary: an input without rows -------------------------------------
     if has_empty:
         if r["exc"] is not None or r["err"]:
-            chk.reject("empty-input:" + (r["exc"] or "ValueError").split(":")[0])
+            chk.reject(("no-input:" if not c["inputs"] else "empty-input:") + (r["exc"] or "ValueError").split(":")[0])
             if model != "reject-empty":
                 chk.corr_break("merge-empty", dict(info, model=model))
         elif model == "reject-empty":
@@ -677,6 +1093,17 @@ def classify(chk, c, r, resp, ix, tally=True):
         return
     if with_cols:
         classify_cols(chk, c, r, resp, ix, info)
+        return
+    fm = c.get("fmts")
+    if fm and fm[0] == "parquet" and "csv" in fm:
+        # a path list whose first file is Parquet and that contains a text file: merge_sort opens every path with
+        # pyarrow (C14_paths_raises_iff); outside the property ("text or Parquet"), the model says the code refuses
+        if r["exc"] is not None:
+            chk.reject("mixed-list-parquet-first:" + r["exc"].split(":")[0])
+            if model != "reject-empty":
+                chk.corr_break("mergepaths-mixed", dict(info, model=model))
+        else:
+            chk.corr_break("mergepaths-mixed", dict(info, model=model))
         return
     # --- the property promises success on every non-empty input family ---------
     if r["exc"] is not None and c.get("wholetext") and "Column types do not match" in r["exc"]:
@@ -689,13 +1116,18 @@ def classify(chk, c, r, resp, ix, tally=True):
         return
     orig = {rid: s for rows in c["inputs"] for s, rid in rows}
     for s, rid, pay in r["rows"]:
-        if pay != (None if c.get("nopay") else f"r{rid}") or orig.get(rid) != s:
+        if pay != expected_pay(c, rid) or orig.get(rid) != s:
             chk.spec_violation(f"row-modified:{entry}",
                                dict(info, clause=f"row id={rid} came out as score={s} payload={pay}"))
             return
     if r["rows"] and (r["names"] != file_columns(c) or r["names_mixed"]):
         chk.spec_violation(f"row-modified:{entry}:columns",
                            dict(info, names=r["names"], clause="rows do not carry the columns of the inputs, in order"))
+        return
+    if r["rows"] and c.get("xcol") and r["xtypes"] != {"f"}:
+        chk.spec_violation(f"row-modified:{entry}:type",
+                           dict(info, x_kinds=sorted(r["xtypes"]),
+                                clause="a float cell (NaN included) came out as a value of another kind"))
         return
     if r["rows"] and not c.get("wholetext") and (r["stypes"] != ({"f"} if c["floaty"] else {"i"}) or r["itypes"] != {"i"}):
         chk.spec_violation(f"row-modified:{entry}:type",
@@ -704,6 +1136,10 @@ def classify(chk, c, r, resp, ix, tally=True):
         return
     if spec != "ok":
         chk.spec_violation(f"{entry}:{spec}", dict(info, expected=model, clause=spec))
+        return
+    if "spec" in ix and len(r["rows"]) <= 200 and py_spec(c, r["rows"], r["err"]) != "ok":
+        # the Python restatement of the spec (used for re-use and very long inputs) disagrees with the Lean spec op
+        chk.corr_break("py-spec", dict(info, lean_spec=spec, py_spec=py_spec(c, r["rows"], r["err"])))
         return
     if r["err"]:
         # C14_checked_yields_prefix, restated on scores (independent of the tie order): what was yielded
@@ -735,7 +1171,7 @@ def classify(chk, c, r, resp, ix, tally=True):
         tie_tally(chk, "merge_sort", impl_rows == mrows)
         if all_sorted:
             # C14_kmerge_eq_stable_sort: the result is determined row by row
-            check_tie_rule(chk, c, info, impl_rows, resp[ix["stable"]])
+            check_tie_rule(chk, c, info, impl_rows, resp[ix["stable"]] if "stable" in ix else None)
         return
     d = dec(model)
     mrows = parse_rows(d[0]) if d[0] != [] else []
@@ -763,7 +1199,7 @@ def classify(chk, c, r, resp, ix, tally=True):
             return
         tie_tally(chk, "merger", impl_rows == seen)
         # C14_checked_eq_stable_sort: no error, so every input is sorted as declared and the result is the stable sort
-        if not check_tie_rule(chk, c, info, impl_rows, resp[ix["stable"]]):
+        if not check_tie_rule(chk, c, info, impl_rows, resp[ix["stable"]] if "stable" in ix else None):
             return
     if entry == "chunked":
         frames = r["frames"]
@@ -775,7 +1211,7 @@ def classify(chk, c, r, resp, ix, tally=True):
         if frames != fm:
             chk.corr_break("rechunk", dict(info, frames=frames, model=fm))
             return
-    if entry in DELIVER_ENTRIES:
+    if entry in DELIVER_ENTRIES and "deliver" in ix:
         check_delivery(chk, c, r, info, impl_rows, resp[ix["deliver"]])
 
 
@@ -792,6 +1228,11 @@ def tie_tally(chk, which, same):
 def minimise(chk):
     if not chk.spec_violations:
         return
+    # start from the smallest failing case seen (the long inputs are evaluated first)
+    small = min(range(len(chk.spec_violations)),
+                key=lambda i: (sum(len(x) for x in chk.spec_violations[i][1]["case"]["inputs"])
+                               if "case" in chk.spec_violations[i][1] else 10 ** 9, i))
+    chk.spec_violations.insert(0, chk.spec_violations.pop(small))
     sig, info = chk.spec_violations[0]
     if "case" not in info:
         return
@@ -803,12 +1244,30 @@ def minimise(chk):
         for i, s in items:
             groups.setdefault(i, []).append(s)
         lists = [groups[i] for i in sorted(groups)]
-        c = dict(c0, inputs=with_ids(lists))
+        c = dict(c0, inputs=with_ids(lists, c0.get("idbase", 0)))
+        if len(lists) != len(c0["inputs"]):   # per-input options no longer fit
+            c.update(samereader=None, fmts=None, sfx=[(c0.get("sfx") or [".csv"])[0]] * len(lists))
+            if c0.get("nest"):
+                c["nest"] = [len(lists)]
+            if c.get("reuse") == "same-reader":
+                c["reuse"] = None
+        elif c0.get("samereader"):
+            i, j = c0["samereader"]
+            if c["inputs"][i] != [(s, r - 1000 * (j - i)) for s, r in c["inputs"][j]]:
+                c.update(samereader=None, reuse=None)
+            else:
+                c["inputs"][j] = list(c["inputs"][i])
         n = max(len(x) for x in lists)
         c["chunk"] = min(c0["chunk"], n + 1)
         return c
 
+    import time
+
+    t_end = time.time() + 40     # (a failure that needs the very long inputs is expensive to re-run: stop shrinking then)
+
     def fails(items):
+        if time.time() > t_end:
+            return False
         sub = common.Check(chk.prop, chk.tier, chk.seed)
         try:
             eval_cases(sub, [rebuild(items)], tally=False)
@@ -842,6 +1301,9 @@ def search(chk):
     if not chk.spec_violations:
         eval_cases(chk, [gen_case(rng, 8, force_cols=True) for _ in range(1000)])
     if not chk.spec_violations:
+        eval_cases(chk, [gen_big(rng, w) for w in ["merger-default-chunk"] * 12 + ["many-inputs"] * 60
+                         + ["sort-default-chunk"] * 2])
+    if not chk.spec_violations:
         eval_cases(chk, exhaustive_cases("thorough"))
     minimise(chk)
 
@@ -856,6 +1318,14 @@ def main(chk, args):
     cases += [gen_case(rng) for _ in range(1500 if quick else 60000)]
     cases += [gen_empty(rng) for _ in range(40 if quick else 300)]
     cases += [gen_case(rng, force_cols=True) for _ in range(250 if quick else 6000)]
+    cases += [gen_noinput(rng, kind) for kind in ("sort", "merger")]
+    # size: inputs longer than the default chunk constants / many inputs (few cases: they are long)
+    bigs = (["merger-default-chunk", "merger-default-chunk", "many-inputs", "many-inputs", "many-inputs", "many-inputs"]
+            if quick else ["merger-default-chunk"] * 40 + ["many-inputs"] * 150 + ["sort-default-chunk"] * 6)
+    # (the long ones first: they are spread over the worker processes while the short ones fill the gaps)
+    cases = [gen_big(rng, w) for w in bigs] + cases
+    if quick:   # one text and one Parquet list whose long file exceeds the default MERGE_SORT_CHUNK_SIZE
+        cases = [gen_big(rng, "sort-default-chunk", fmt) for fmt in ("csv", "parquet")] + cases
     eval_cases(chk, cases)
     ex = exhaustive_cases(chk.tier)
     eval_cases(chk, ex)
@@ -867,10 +1337,29 @@ def main(chk, args):
         "rotated; merge_sort on every sorted family among them (text" + ("/Parquet)" if not quick else ")")
     )
     minimise(chk)
-    lc = common.leanchecker("C14") if chk.tier == "thorough" else None
+    lc = None
+    if chk.tier == "thorough":      # both property modules
+        lcs = [common.leanchecker(m) for m in ("C14", "C14Paths", "C14Nested")]
+        lc = (all(x[0] for x in lcs), "".join(x[1] for x in lcs))
     chk.assumptions += [
-        "scores are finite numbers exactly representable as float64 (integers, dyadic rationals): no NaN, so "
-        "`a < b` is `not (b <= a)` as in the model",
+        "scores are numbers exactly representable as float64 (integers, dyadic rationals) or +inf / -inf: no NaN, so "
+        "`a < b` is `not (b <= a)` as in the model (C14_infinite_scores_total_preorder); on the wire +inf / -inf are "
+        "sent as +-10^30, beyond every finite score generated (the model uses nothing but the order)",
+        "integer score columns hold values below 2^53 in magnitude: merge_sort compares `float(score)`, so larger "
+        "64-bit integers that differ by less than their float spacing would tie (mokapot's scores are floats)",
+        "a file named *.parquet holds Parquet data and every other file text (merge_sort chooses the row iterator "
+        "from the suffix of the first path; a text-first list may contain Parquet files, a Parquet-first list with a "
+        "text file is refused by pyarrow and tallied as rejected); no input at all: IndexError / AssertionError "
+        "(tallied as rejected)",
+        "object re-use: the second use of a merger object / path list is compared with the first one (which is "
+        "checked in full), and where it differs with the property restated in Python (`py_spec`, itself compared with "
+        "the Lean spec op on every ordinary case)",
+        "stacked mergers: the outer merger sees an inner one through get_chunked_data_iterator(outer reader chunk size), "
+        "i.e. as the rows of the complete frames followed by the inner ValueError (kmergeNested); the spec applied is the "
+        "flat one over all leaf inputs (C14_nested_eq_flat / C14_nested_facts)",
+        "missing cells of the extra float column are NaN values (not Parquet nulls); they are compared as 'nan' and by kind",
+        "the very long merge_sort inputs (> 20000 rows) are checked against the Lean model and the Python restatement "
+        "of the spec and of the tie rule; the quadratic Lean spec checkers are not evaluated on them",
         "pandas.read_csv(chunksize=c), pyarrow iter_batches(c) and DataFrame.iloc slicing deliver the rows of a "
         "file in order, in consecutive batches (modelled by kmChunks; any batching gives the same row sequence)",
         "np.argmax / np.argmin return the first index of the extreme value; Python dicts iterate in insertion "
